@@ -152,7 +152,7 @@ def run_case(case):
             self.first = True
 
         def write(self, s):
-            if self.first and len(s) > 0:
+            if (self.first or case.get("fine")) and len(s) > 0:      # fine: every write takes a turn (reads interleave too)
                 self.first = False
                 gate.turn(self.key)
                 try:
@@ -202,6 +202,10 @@ def run_case(case):
     o_limit = P.get_memory_limit
     if case.get("limit"):
         P.get_memory_limit = lambda: case["limit"]     # several decode iterations per member
+    import py7zr.compressor as Cm
+    o_block = Cm.get_default_blocksize
+    if case.get("block"):
+        Cm.get_default_blocksize = lambda: case["block"]   # several reads of packed data per folder
     want = sorted(k for k in names if (not case.get("targets")) or names[k] in case["targets"])
     real_sizes = [[len(contents[(f, i)]) for i in range(1, len(sz) + 1)] for f, sz in enumerate(sizes, start=1)]
     trace = [{"e": "arch", "sizes": real_sizes, "damaged": sorted(case.get("damaged", [])), "mode": mode, "delivered": [list(k) for k in want]}]
@@ -285,3 +289,4 @@ def run_case(case):
     finally:
         P.Worker.extract_single = orig_es
         P.get_memory_limit = o_limit
+        Cm.get_default_blocksize = o_block
